@@ -41,6 +41,7 @@ type Engine struct {
 	mutableGlobal map[*ssa.Global]bool
 	lockClasses   map[string]bool // "pkg.Type.mutexPath" -> sections must be non-blocking
 	structInvs    []*StructInv
+	writerIssues  []writerIssue
 	conformIfaces map[string]bool // interfaces whose in-repo implementations are checked against the interface contracts
 	tagSeq        int64
 	solverSem     chan struct{} // bounds the number of concurrently running solver processes started from within one function
@@ -334,6 +335,11 @@ func (e *Engine) newFnCtx(fn *ssa.Function, discovery bool, prev *FnCtx) *FnCtx 
 
 // conformJob: check that the contract of an in-repo implementation of an
 // interface method refines the contract written on the interface method.
+type writerIssue struct {
+	props []string
+	msg   string
+}
+
 type conformJob struct {
 	iface *Contract // the contract on the interface method
 	impl  *Contract // the implementation's own contract
@@ -847,6 +853,12 @@ func (e *Engine) resolveStructInvs() error {
 		for _, f := range si.Established {
 			allowed[f] = true
 		}
+		if si.WritersOnly {
+			for f := range si.stable {
+				si.stable[f] = false // the listed writers do change it
+			}
+			goto writerScan
+		}
 		// the type must not occur as a by-value field of another struct: such
 		// instances are never "returned by a constructor", so nothing would prove
 		// the invariant for them (declare it on the containing type instead)
@@ -878,6 +890,7 @@ func (e *Engine) resolveStructInvs() error {
 				return fmt.Errorf("structinv %s: establishing function %s is not under a verified contract, so the invariant would never be proved", si.TypeName, f)
 			}
 		}
+	writerScan:
 		helper := map[string]bool{}
 		for _, f := range si.Helpers {
 			allowed[f] = true
@@ -949,8 +962,23 @@ func (e *Engine) resolveStructInvs() error {
 					if hit := si.touches(strings.Join(names, ".")); hit != "" {
 						// a writer under a verified contract re-establishes the invariant at the store (structInvStore);
 						// the field's value is then no longer constant, only the invariant is
-						if con := e.contracts[fn.String()]; con != nil && !con.Trusted {
+						if con := e.contracts[fn.String()]; con != nil && !con.Trusted && !si.WritersOnly {
 							si.stable[hit] = false
+							continue
+						}
+						if si.WritersOnly {
+							// reported with the checks of the properties the listed writers serve
+							var props []string
+							for k, con := range e.contracts {
+								if f2 := e.funcs[k]; f2 != nil && f2.Pkg != nil && f2.Pkg.Pkg == si.Pkg {
+									for _, w := range si.Established {
+										if f2.Name() == w {
+											props = append(props, con.Props...)
+										}
+									}
+								}
+							}
+							e.writerIssues = append(e.writerIssues, writerIssue{props: props, msg: fmt.Sprintf("writers %s.%s: the field is stored to in %s, which is not one of the declared writers (%s)", si.TypeName, hit, fn, strings.Join(si.Established, ", "))})
 							continue
 						}
 						return fmt.Errorf("structinv %s: field %s is written in %s, which is neither listed as establishing it nor under a verified contract", si.TypeName, hit, fn)
